@@ -519,14 +519,34 @@ func runWitnesses(t *testing.T, property string) {
 					if b, err := os.ReadFile(path); err == nil {
 						var rf replayFile
 						if json.Unmarshal(b, &rf) == nil {
-							rf.Message = fmt.Sprintf("fixed finding %s is back: %s", f.ID, msg)
+							rf.Message = fmt.Sprintf("the witness of fixed finding %s fails (that finding is back, or the same input now fails for another reason): %s", f.ID, msg)
 							b, _ = json.MarshalIndent(rf, "", " ")
 						}
 						_ = os.WriteFile(cfgReplay, b, 0o644)
 					}
 				}
-				t.Fatalf("%s: fixed finding %s is back: %s", property, f.ID, msg)
+				t.Fatalf("%s: the witness of fixed finding %s fails: %s", property, f.ID, msg)
 			}
 		}
 	}
+}
+
+// alignCR grows a document (through grow, which lengthens a text that is rendered ahead of byte 200) so that one of its
+// carriage returns becomes the last byte of a 4096-byte block - where a line scanner's buffer ends. It reports success.
+func alignCR(t *rapid.T, render func() []byte, grow func(n int)) bool {
+	b := render()
+	var crs []int
+	for i, c := range b {
+		if c == '\r' && i > 200 {
+			crs = append(crs, i)
+		}
+	}
+	if len(crs) == 0 {
+		return false
+	}
+	q := crs[rapid.IntRange(0, len(crs)-1).Draw(t, "alignedcr")]
+	pad := (4095 - q%4096 + 4096) % 4096
+	grow(pad)
+	b2 := render()
+	return len(b2) == len(b)+pad && b2[q+pad] == '\r' && (q+pad)%4096 == 4095
 }
